@@ -1,4 +1,7 @@
 import I18n.Model.Charset
+import I18n.Generated.IconvDl
+import I18n.Generated.EncodingsFn
+import I18n.Generated.LingFn
 import I18n.Model.CharsetCns
 import I18n.Spec.CharsetIconv
 import I18n.Driver.Util
@@ -13,6 +16,10 @@ byte strings as plain hex (`-` = empty), "no value" as `~`.
 * `cmdecode <file> <bytes>` / `cmencode <file> <text>` → `ok … | err <start> <end>`
 * `decloop <bytes> <fuel> <script>` / `encloop <nchars> <fuel> <script>` → `<outcome> trace=<alloc>:<told>,…`;
   `<script>` = `;`-separated `<told>=<reset|~>/<rc>:<consumed>:<written>/<rc>:<consumed>:<written>`, rc ∈ ok,e2big,eilseq,einval,<errno>
+* `gdecloop <bytes> <fuel> <script>` / `gencloop <text> <fuel> <script>`: the same through `decode` / `encode` as REGENERATED from the
+  current lib/iconv.py (`Generated.IconvDl`; proved equal to the model in `Props/C20Tie.lean`)
+* `gportable`, `gpropose`, `gascii`, `gsearch`, `gloader`: as `portable` … `loader`, through the functions REGENERATED from the current
+  lib/encodings.py (`Generated.EncodingsFn`; proved equal to the model in `Props/C20Tie.lean`)
 * `chars <strict 0|1> <value>` → tokens joined by `,`
 * `unrep <joined outcome> <per-character outcomes> <characters joined by ,>` → `ok <characters> | crash`; outcome letters `o e i c`
 * `check <name> <is_template> <dec> <codec | ~> <characters | ~ (no language) | ^ (no list)> <oracle>` →
@@ -122,6 +129,42 @@ def handle (op : String) (args : List String) : String :=
     | .notOurs => "none"
     | .charmap f => s!"charmap {showName f}"
     | .iconv e => s!"iconv {showName e}"
+  -- `gportable` / `gpropose` / `gascii` / `gsearch` / `gloader`: the same over the functions REGENERATED from lib/encodings.py
+  -- (Generated.EncodingsFn, tools/translate/encodings2lean.py)
+  | "gportable", [py, n] =>
+    match I18n.Generated.EncodingsFn.is_portable_encoding portableEncodings (nameOf n) (py == "1") with
+    | .ok b => if b then "1" else "0"
+    | .error _ => "exc"
+  | "gpropose", [n, codec] =>
+    match I18n.Generated.EncodingsFn.propose_portable_encoding portableEncodings pycodecToEncoding (fun _ => nameOpt codec) (nameOf n) true with
+    | .error .assertion => "assert"
+    | .error _ => "exc"
+    | .ok none => "none"
+    | .ok (some p) => s!"some {showName p}"
+  | "gascii", [mo, d] =>
+    match I18n.Generated.EncodingsFn.is_ascii_compatible_encoding (fun _ _ => decOf d) [] (mo == "1") with
+    | .error .encodingLookup => "ELE"
+    | .error _ => "exc"
+    | .ok b => if b then "1" else "0"
+  | "gsearch", [n] =>
+    match (I18n.Generated.EncodingsFn._codec_search_function portableEncodings extraEncodings unmangle
+        (fun f => (charmaps.find? (·.1 == f)).map (·.2)) (nameOf n)).map EPy.searchOf with
+    | .ok .notOurs => "none"
+    | .ok (.charmap f) => s!"charmap {showName f}"
+    | .ok (.iconv e) => s!"iconv {showName e}"
+    | .error _ => "exc"
+  | "gloader", [len, raw] =>
+    let r : RawDecode := match raw.toList with
+      | 'T' :: rest => .text (nameOf (String.ofList rest))
+      | 'D' :: rest => match nameOf (String.ofList rest) with
+        | [a, b] => .ude a b
+        | _ => .other
+      | ['U'] => .unicodeError
+      | _ => .other
+    match I18n.Generated.EncodingsFn.decode (fun _ _ => r) (List.replicate len.toNat! 0) [] with
+    | .ok cs => s!"ok {showName cs}"
+    | .error (.unicodeDecode a b) => s!"ude {a} {b}"
+    | .error _ => "crash"
   | "cmdecode", [f, b] =>
     match charmapDecode (tableOf (nameOf f)) (bytesOf b) with
     | .ok cs => s!"ok {showName cs}"
@@ -136,12 +179,35 @@ def handle (op : String) (args : List String) : String :=
   | "encloop", [n, fuel, script] =>
     let (o, tr) := encodeDl (stepOf script) n.toNat! fuel.toNat!
     s!"{showOutcome showBytes o} {showTrace tr}"
+  -- `gdecloop` / `gencloop`: the same over `decode` / `encode` REGENERATED from lib/iconv.py (Generated.IconvDl, tools/translate/iconv2lean.py);
+  -- `gencloop` takes the text itself
+  | "gdecloop", [b, fuel, script] =>
+    let (o, tr) := Py.observe (I18n.Generated.IconvDl.decode ⟨fun _ _ => none, fun _ _ => stepOf script, none⟩ (bytesOf b)
+      (Py.lit "X-SCRIPTED") (Py.lit "strict") fuel.toNat! Py.World.init)
+    match Py.toOutcome o with
+    | some o => s!"{showOutcome showName o} {showTrace tr}"
+    | none => s!"other {showTrace tr}"
+  | "gencloop", [t, fuel, script] =>
+    let (o, tr) := Py.observe (I18n.Generated.IconvDl.encode ⟨fun _ _ => none, fun _ _ => stepOf script, none⟩ (nameOf t)
+      (Py.lit "X-SCRIPTED") (Py.lit "strict") fuel.toNat! Py.World.init)
+    match Py.toOutcome o with
+    | some o => s!"{showOutcome showBytes o} {showTrace tr}"
+    | none => s!"other {showTrace tr}"
   | "chars", [strict, v] => showChars (getCharacters (strict == "1") (nameOf v))
   | "unrep", [j, per, cs] =>
     let characters := charsOf cs
     match getUnrepresentable (oracle characters (encOf (j.toList.headD 'c')) (per.toList.map encOf)) characters with
     | .error () => "crash"
     | .ok r => s!"ok {showChars r}"
+  -- `gunrep`: the same through `Language.get_unrepresentable_characters` REGENERATED from lib/ling.py (Generated.LingFn,
+  -- tools/translate/ling2lean.py); the language lists exactly `<characters>`
+  | "gunrep", [j, per, cs] =>
+    let characters := charsOf cs
+    match I18n.Generated.LingFn.get_unrepresentable_characters (fun _ _ _ => some characters)
+        (oracle characters (encOf (j.toList.headD 'c')) (per.toList.map encOf)) ⟨[120, 120], none, none⟩ false with
+    | .error _ => "crash"
+    | .ok none => "none"
+    | .ok (some r) => s!"ok {showChars r}"
   | "check", [n, tmpl, d, codec, cs, orc] =>
     let characters : Option (Option (List (List Nat))) :=
       if cs == "~" then none else if cs == "^" then some none else some (some (charsOf cs))
